@@ -57,6 +57,11 @@ pub const ATOMS: &[(&str, usize)] = &[
     ("naïve", 5),
     ("çççççççççç", 10),
     ("ÀÉÎÕÜ-ß", 7),
+    // many suffix parts on one word; the free-standing word 'n'
+    ("a-b-c-d-e-f", 11),
+    ("a-b-c-d-e-f-g-h-i's's", 19),
+    ("'n'", 1),
+    ("'N'", 1),
 ];
 
 pub const HEADS: &[&str] = &["x is ", "x was ", "x are ", "x's ", "the zed were ", "rock x like "];
